@@ -233,7 +233,7 @@ func runCVecT[T cnum](r *runner, c *pcase, binds []cvbindT[T]) {
 				bx := cplace(cdecv[T](c.X, 0), coff[T](off))
 				by := cplace(cdecv[T](c.Y, 0), coff[T](yoff(off)))
 				var bd *cbuf[T]
-				en := &cenvT[T]{x: bx.view, y: by.view, a: T(complex(float64(c.A), float64(c.AI)))}
+				en := &cenvT[T]{x: bx.view, y: by.view, a: calpha[T](c)}
 				var res []T
 				switch {
 				case b.where == "x":
@@ -263,8 +263,10 @@ func runCVecT[T cnum](r *runner, c *pcase, binds []cvbindT[T]) {
 					continue
 				}
 				bad := ""
-				if i, ok := csameVec(res, c.W, 0); !ok {
+				kind := "value"
+				if i, ok := czSameVec(c, res, c.W); !ok {
 					bad = fmt.Sprintf("result differs at %d: got %v want(spec, interleaved) %v", i, res, c.W)
+					kind = czKind(c, res)
 				} else if en.outv != nil && (len(en.outv) != len(res) || (len(res) > 0 && &en.outv[0] != &res[0])) {
 					bad = "returned slice is not the destination"
 				} else if !bx.intact() || !by.intact() || (bd != nil && !bd.intact()) {
@@ -290,7 +292,7 @@ func runCVecT[T cnum](r *runner, c *pcase, binds []cvbindT[T]) {
 						}
 						continue
 					}
-					r.fail(c, b.name, off, mode, "value", bad)
+					r.fail(c, b.name, off, mode, kind, bad)
 				}
 			}
 		}
@@ -319,7 +321,11 @@ func runCMisc(r *runner, c *pcase) {
 				}
 			})
 			if !o.Panicked {
-				if i, ok := sameVecNum(bd.view, c.W); !ok {
+				i, ok := sameVecNum(bd.view, c.W)
+				if c.CZ { // components may be special values: bit for bit
+					i, ok = sameVec(bd.view, c.W, 0)
+				}
+				if !ok {
 					bad = fmt.Sprintf("differs at %d: %s", i, show(bd.view))
 				} else if len(ret) != c.N || (c.N > 0 && &ret[0] != &bd.view[0]) {
 					bad = "returned slice is not dst"
@@ -333,7 +339,7 @@ func runCMisc(r *runner, c *pcase) {
 			bd := cplace(make([]complex128, c.N), doff(off)%4)
 			o = core.Call(func() { cmplxs.Complex(bd.view, bx.view, by.view) })
 			if !o.Panicked {
-				if i, ok := csameVec(bd.view, c.W, 0); !ok {
+				if i, ok := czSameVec(c, bd.view, c.W); !ok {
 					bad = fmt.Sprintf("differs at %d: %v", i, bd.view)
 				} else if !bd.intact() || !bx.intact() || !by.intact() {
 					bad = "wrote outside dst"
@@ -459,7 +465,7 @@ func runCIncT[T cnum](r *runner, c *pcase, binds []cincBind[T], e, p, tiny int) 
 			by := cplace(cdecv[T](c.Y, 0), yoff(off))
 			var z complex128
 			var s float64
-			a := T(complex(float64(c.A), float64(c.AI)))
+			a := calpha[T](c)
 			o := core.Call(func() { z, s = b.call(c.N, a, bx.view, c.IncX, by.view, c.IncY) })
 			r.count(c, b.name)
 			if o.Panicked {
@@ -485,9 +491,9 @@ func runCIncT[T cnum](r *runner, c *pcase, binds []cincBind[T], e, p, tiny int) 
 				bad = normBad(c, s, e, p, tiny)
 			}
 			if bad == "" {
-				if i, ok := csameVec(bx.view, wx, e); !ok {
+				if i, ok := czIncSame(c, bx.view, wx, e, c.F == "CScal" || c.F == "CDscal"); !ok {
 					bad = fmt.Sprintf("x backing array differs from spec at %d: %v", i, bx.view)
-				} else if i, ok := csameVec(by.view, wy, 0); !ok {
+				} else if i, ok := czIncSame(c, by.view, wy, 0, c.F == "CAxpy"); !ok {
 					bad = fmt.Sprintf("y backing array differs from spec at %d: %v", i, by.view)
 				} else if !bx.intact() || !by.intact() {
 					bad = "wrote outside the backing arrays"
